@@ -22,6 +22,9 @@ same three fees on the same fee fields and returns amount + their sum. X6 (vault
 source_vault AND factory.Vault(asset) == source_vault; complete_loan pays payback_amount (from the vault's own quote)
 to the vault and balance - payback to the initiator, an underflow being an error; all messages are attached.
 Nested-loan fee accounting is not decided (declined in DESIGN.md).
+X6 also covers the state the router threads through its callbacks: the NextLoan it starts names info.sender as
+initiator, and every NextLoan / CompleteLoan built by next_loan carries the initiator and the loaned_assets of the NextLoan
+being handled (resolved to the request's field names at the dispatch site).
 """
 ASSUMPTIONS = [
     "messages attached to a Response are executed in order and any failure reverts the whole transaction (CosmWasm)",
@@ -35,6 +38,7 @@ DEPOSIT = "vault::execute::deposit::deposit"
 PAYBACK = "vault::queries::get_payback_amount::get_payback_amount"
 NEXT = "vault_router::execute::next_loan::next_loan"
 COMPLETE = "vault_router::execute::complete_loan::complete_loan"
+FLASH_R = "vault_router::execute::flash_loan::flash_loan"
 
 
 def pidx(v, suffix):
@@ -339,6 +343,57 @@ def check_router(ctx, model):
         check_messages_attached(ctx, model, COMPLETE, rule="C06-X6")
 
 
+def _at_callers(model, p, os_):
+    """Resolve bare parameter origins of function p to the operands passed at its (direct) call sites."""
+    res = set()
+    for o in os_:
+        got = False
+        if o.kind == "param" and not o.proj:
+            for (cp, cb, ck) in model.callers().get(p, []):
+                if ck != "call":
+                    continue
+                cv = model.view(cp)
+                ct = cv.blocks[cb]["t"]
+                if o.a - 1 < len(ct["args"]):
+                    res |= cv.origins_of_operand(ct["args"][o.a - 1], at=cv.at_term(cb))
+                    got = True
+        if not got:
+            res.add(o)
+    return res
+
+
+def check_router_threading(ctx, model):
+    """The loan state the router threads through its callbacks: the NextLoan it starts names the sender as initiator;
+    every NextLoan / CompleteLoan built by next_loan carries the initiator and the loaned_assets of the NextLoan it is
+    handling (the vault calling back is info.sender there -- using it would pay the surplus to the vault)."""
+    n = 0
+    for p, want in ((FLASH_R, "sender"), (NEXT, "request")):
+        v = ctx.view(p, "C06-X6")
+        if v is None:
+            continue
+        for b, i, s_ in v.iter_stmts():
+            rv = s_["rv"]
+            if rv["r"] != "agg" or not rv.get("adt", "").endswith("vault_router::ExecuteMsg") or rv.get("variant") not in ("NextLoan", "CompleteLoan"):
+                continue
+            f = dict(zip(rv["fields"], rv["ops"]))
+            n += 1
+            io = v.origins_of_operand(f["initiator"], at=(b, i))
+            if want == "sender":
+                ok = bool(io) and all(o.kind == "param" and "MessageInfo" in v.local_ty(o.a) and tuple(o.proj) == ("sender",) for o in io)
+                what = "info.sender"
+            else:
+                r = _at_callers(model, p, io)
+                ok = bool(r) and all(o.kind == "param" and tuple(o.proj) == ("#NextLoan", "initiator") for o in r)
+                what = "the initiator of the NextLoan being handled"
+                lo = _at_callers(model, p, v.origins_of_operand(f["loaned_assets"], at=(b, i)))
+                okl = bool(lo) and all(o.kind == "param" and tuple(o.proj) == ("#NextLoan", "loaned_assets") for o in lo)
+                ctx.ob("C06-X6", "%s|%s|loaned_assets-threaded" % (p, rv["variant"]), okl,
+                       "%s.loaned_assets := %s (must be the loaned_assets of the NextLoan being handled)" % (rv["variant"], sorted(map(repr, lo))), v.where(b))
+            ctx.ob("C06-X6", "%s|%s|initiator-threaded" % (p, rv["variant"]), ok,
+                   "%s.initiator := %s (must be %s)" % (rv["variant"], sorted(map(repr, io)), what), v.where(b))
+    ctx.floor("C06-X6", "NextLoan/CompleteLoan messages built by the router", n, 3)
+
+
 def run(ctx):
     model = ctx.model()
     check_callback(ctx, model)
@@ -347,3 +402,4 @@ def run(ctx):
     check_deposit(ctx, model)
     check_payback(ctx, model)
     check_router(ctx, model)
+    check_router_threading(ctx, model)
